@@ -208,6 +208,8 @@ class PreemptibleResource(Entity):
             self._try_preempt(amount, priority)
             if self._available >= amount:
                 self._grant_immediate(future, amount, priority, on_preempt)
+                # Preemption may have freed more than this request takes.
+                self._wake_waiters()
                 return future
 
         # Must wait
@@ -221,6 +223,10 @@ class PreemptibleResource(Entity):
         )
         self._insert_counter += 1
         heapq.heappush(self._waiters, waiter)
+        if preempt:
+            # Capacity freed by a preemption that was not enough for this
+            # request still goes to whoever is first in line.
+            self._wake_waiters()
 
         logger.debug(
             "[%s] Queued acquire(%d, priority=%.1f), waiters=%d",
